@@ -58,7 +58,8 @@ def GoodC (cs : CState) : Prop :=
 def GoodEndC (ce : CEnd) : Prop :=
   ce.e.tag = .normal → ∀ h, ce.e.out = .halt h → ∀ I : Interp, I.Std → ∀ f0, RelC I p S w0 cs0 w0 f0 [] →
     Sat I ce.e.st.path →
-      ∃ w', Halts p w0 f0 (w', haltWith h (ce.e.data.map (·.eval I))) ∧ WRelM I S w0 w' (stoOf ce.stores)
+      ∃ w', Halts p w0 f0 (w', haltWith h (ce.e.data.map (·.eval I))) ∧
+        WRelM I S w0 w' (stoOf ce.stores) (evalLogs I ce.logs)
 
 end
 
